@@ -55,4 +55,7 @@ class RepresentationBaseType(DashElement):
         await asyncio.gather(*futures)
 
     def children(self) -> list[DashElement]:
-        return self.event_streams
+        rv: list[DashElement] = list(self.event_streams)
+        if self.segmentTemplate is not None:
+            rv.append(self.segmentTemplate)
+        return rv
